@@ -44,7 +44,7 @@ def _m_d20a(case, observed, finding):
                for st, f in zip(case['disk'][:i], case['files'][:i]))
 
 
-MATCHERS = {'D20a_dir_with_dangling_link': _m_d20a}
+MATCHERS = {}   # D20a was repaired in /repo (884cab4); its witness stays as a regression case
 
 RULE = ('case = (layout, per-file disk state, path shape, pieces kind, callback); exhaustive: every '
         'assignment of {ok, missing, -1, +1, dir(total = size), dir(total != size)} to <= 3 (thorough: 4) '
@@ -61,7 +61,14 @@ def _exc_obs(e, fsmap):
     """error kind (+ numbers) and the listed index whose file-system path the error names"""
     n = type(e).__name__
     if n == 'ReadError':
-        return ['read'], fsmap.get(str(e.path), -1), e.errno
+        idx = fsmap.get(str(e.path), -1)
+        if idx == -1:
+            # a read error inside a directory that stands where a listed file should be names the
+            # unreadable entry below that path: it still names the listed file's location
+            for fp, i in fsmap.items():
+                if str(e.path).startswith(fp + os.sep):
+                    idx = i
+        return ['read'], idx, e.errno
     if n == 'VerifyFileSizeError':
         return ['verifyFileSize', e.actual_size, e.expected_size], fsmap.get(str(e.filepath), -1), None
     if n == 'VerifyIsDirectoryError':
